@@ -270,6 +270,12 @@ fn judge(
         if count {
             st.inconclusive += 1;
             *st.inconclusive_why.entry(why.clone()).or_default() += 1;
+            // give up early instead of grinding through thousands of slow cases
+            if st.inconclusive >= 48 && st.inconclusive * 20 > st.evaluations {
+                let msg = format!("{} of the first {} evaluations were inconclusive (> 5 %): {:?}", st.inconclusive, st.evaluations, st.inconclusive_why);
+                drop(st);
+                abort.lock().unwrap().get_or_insert(msg);
+            }
         }
         return Ok(());
     }
